@@ -60,10 +60,18 @@ def comp(op, fn, **kw):
     except Exception as ex: e['raised'] = type(ex).__name__
     return e
 
+SKIPPED = []
+def have(mod, *names):
+    """all the public names a component group needs; a missing one (refactored away) -> the group is skipped with a note"""
+    miss = [n for n in names if not hasattr(mod, n)]
+    if miss: SKIPPED.append('%s: %s not found, component group skipped' % (getattr(mod, '__name__', mod), ', '.join(miss)))
+    return not miss
+
 def aes_components(rnd, nrand):
     from crysp import aes
     from crysp.poly import Poly
     ev = []
+    if not (have(aes, 'AES', 'gmul', 'Rcon', 'Sbox', 'Sbox_inv') and have(aes.AES, 'sboxtable', 'sboxinvtable', 'ShiftRows', 'InvShiftRows', 'MixColumns', 'InvMixColumns', 'SubBytes', 'InvSubBytes')): return ev
     ev.append(comp('table', lambda: [int(x) for x in aes.AES.sboxtable.ival], name='aes_sbox'))
     ev.append(comp('table', lambda: [int(x) for x in aes.AES.sboxinvtable.ival], name='aes_sboxinv'))
     ev.append(comp('table', lambda: [int(x) for x in aes.Rcon[1:11]], name='rcon'))
@@ -95,6 +103,7 @@ def des_components():
     from crysp import des
     from crysp.bits import Bits
     ev = []
+    if not have(des, 'S', 'IP', 'IPinv', 'PC1', 'PC2', 'E', 'P'): return ev
     def box(n):
         return [int(des.S(n, x).ival) for x in range(64)]
     for n in range(8): ev.append(comp('table', lambda n=n: box(n), name='des_sbox', n=n))
@@ -113,6 +122,7 @@ def serpent_components(rnd, nrand):
     from crysp import serpent
     from crysp.bits import Bits
     ev = []
+    if not have(serpent, '_S', '_Sinv', '_L', '_Linv', '_IP', '_FP'): return ev
     def W(bv): return [limbs(int(w), 2) for w in bv.split(32)]
     def mkX(words): return Bits(sum(w << (32 * j) for j, w in enumerate(words)), 128)
     def lw(words): return [limbs(w, 2) for w in words]
